@@ -284,7 +284,7 @@ func VHC16Fresh() {
 	}
 	calls := []struct{ call, spoil string }{
 		{"$.s.split($.sep)", "r[0] = 'CHANGED'; r[1] = 'TOO'; r.push('more'); r.popfirst()"},
-		{"$.o.pluck('a', 'b', 'zz')", "r.a = 'CHANGED'; r.b = 'CHANGED'; r.zz = 1; r.extra = 2"} /* not r.b[1] = ...: containers are shared (C09), the plucked object holds the original's array */,
+		{"$.o.pluck('a', 'b', 'zz')", "r.a = 'CHANGED'; r.b = 'CHANGED'; r.zz = 1; r.extra = 2"}, /* not r.b[1] = ...: containers are shared (C09), the plucked object holds the original's array */
 		{"$.l.sort()", "r[0] = 'CHANGED'; r.pop(); r[5] = 1"},
 		{"$.s.upper()", "r = 'CHANGED'"},
 		{"num($.s)", "r++"},
